@@ -1,7 +1,7 @@
 (* C15 — what the correspondence run evaluates: the mirrors under several
    iteration orders of the hash-ordered parameter *)
 From Coq Require Import List Arith NArith Bool.
-From GV Require Import Common.Outcome C15.Model.
+From GV Require Import Common.Outcome C15.Model C15.EppModel.
 Import ListNotations.
 
 Fixpoint insert_all (x : nat) (l : list nat) : list (list nat) :=
@@ -51,6 +51,11 @@ Definition res_of (tprec pprec : list (nat * (nat * nat))) : nat -> nat -> sr_re
 Definition run_row (tprec pprec : list (nat * (nat * nat))) (init : row) (orders_ : list (list (nat * nat))) :=
   map (fun es => (process_edges (res_of tprec pprec) init es,
                   process_edges_fixed (res_of tprec pprec) init es)) orders_.
+
+(* the `%epp` validation loop (repaired and pinned) under several iteration orders of the map *)
+Definition run_epp (known : list nat) (orders_ : list (list epp_entry)) :=
+  map (fun es => (validate_epp_min (fun k => mem k known) es,
+                  validate_epp_first_found (fun k => mem k known) es)) orders_.
 
 (* the shared OCaml glue (ocaml/common/conv.ml) mentions the binary number types *)
 Definition glue_n_of_nat (k : nat) : N := N.of_nat k.
